@@ -1,16 +1,24 @@
-(* C20 — the class-file layouts of JVMS (SE 17) sections 4.1-4.7, transcribed by hand into the
+(* C20 — the class-file format of JVMS (SE 17) sections 4.1-4.7, transcribed by hand into the
    declaration language of Fmt.v, and the finite checks of the GENERATED table RawGen.raw_env
-   against them.  The JVMS gives most of the nested tables no name; the entries below are keyed by
+   against it.  The JVMS gives most of the nested tables no name; the entries below are keyed by
    the names raw_class_file uses for them, the JVMS names of the items are kept as field names.
 
-   What is compared ([layout]): the byte shape — for a struct the sequence of items (width of
-   every number, named sub-structure, table with the width of its count, "length given
+   The table has two uses.
+   (1) As a LAYOUT ([layout], [names_match]): the byte shape — for a struct the sequence of items
+   (width of every number, named sub-structure, table with the width of its count, "length given
    elsewhere" or "number of indices given elsewhere"); for a union (enum) the width of the tag and,
    per alternative, the set of tag values (or the attribute name) selecting it together with its
-   items and whether it takes up two indices of a slot-counted table (4.4.5).  Fields that occupy no
-   byte (nowrite) and all names are erased.  What computed items (attribute_length,
-   constant_pool_count, tags) must CONTAIN is the subject of the other theorems
-   (attr_len_exact, pool_count, dispatch), not of the layout. *)
+   items and whether it takes up two indices of a slot-counted table (4.4.5).  Items that occupy no
+   byte (nowrite) are erased; [layout] also erases all names, [names_match] compares them.
+   (2) As a READER: [read_sty jvms_env true] — the strict reader generated from this table — is the
+   definition of "well-formed class file" in JvmsRead.v (C20_reads_every_wellformed_class,
+   C20_strict_accepts_iff, C20_writes_only_wellformed_classes).  For that the table also says what
+   the computed items hold: attribute_length "indicates the length of the attribute, excluding the
+   initial six bytes" ([computed]) or the number the JVMS prescribes ([attr_fixed]),
+   constant_pool_count in indices (4.1, 4.4.5), and the quantities the JVMS derives from a frame's
+   tag ([derived]: offset_delta = frame_type - 64, k = 251 - frame_type, locals[frame_type - 251]).
+   Its verdict is compared with the harness' independent Rust walker on every byte-string
+   correspondence case (Run.v, CBytes). *)
 From FB Require Import C20.Fmt C20.FmtTheory C20.RawGen.
 From Coq Require Import Ascii.
 Open Scope N_scope.
@@ -162,56 +170,66 @@ Definition j_ClassFile : decl := DStruct [
   tab2 "interfaces" U2; tab2 "fields" (Named "FieldInfo"); tab2 "methods" (Named "MethodInfo");
   tab2 "attributes" (Named "AttributeInfo") ].
 
-(* 4.4 cp_info { u1 tag; u1 info[]; } *)
+(* an item that occupies no byte: a quantity the JVMS derives from the tag (computed at the item's width) *)
+Definition derived (x : id) (w : width) (e : expr) : field := FMut x (One (Prim w)) (Some (CE (wbits w) e)) false.
+
+(* 4.4 cp_info { u1 tag; u1 info[]; }: the CONSTANT_x_info structures in the order of sections 4.4.1-4.4.12,
+   named x *)
 Definition cp (name : id) (tag : N) (fs : list field) : variant := Variant name (CE 8 (ELit tag)) (PLit tag) GNone fs false.
 (* 4.4.5: an 8-byte constant takes up two entries of the table *)
 Definition cp8 (name : id) (tag : N) (fs : list field) : variant := Variant name (CE 8 (ELit tag)) (PLit tag) GNone fs true.
 Definition j_CpInfo : decl := DEnum "tag" W8 [
-  cp "CONSTANT_Utf8" 1 [tab2 "bytes" U1];
-  cp "CONSTANT_Integer" 3 [u4 "bytes"];
-  cp "CONSTANT_Float" 4 [u4 "bytes"];
-  cp8 "CONSTANT_Long" 5 [u4 "high_bytes"; u4 "low_bytes"];
-  cp8 "CONSTANT_Double" 6 [u4 "high_bytes"; u4 "low_bytes"];
-  cp "CONSTANT_Class" 7 [u2 "name_index"];
-  cp "CONSTANT_String" 8 [u2 "string_index"];
-  cp "CONSTANT_Fieldref" 9 [u2 "class_index"; u2 "name_and_type_index"];
-  cp "CONSTANT_Methodref" 10 [u2 "class_index"; u2 "name_and_type_index"];
-  cp "CONSTANT_InterfaceMethodref" 11 [u2 "class_index"; u2 "name_and_type_index"];
-  cp "CONSTANT_NameAndType" 12 [u2 "name_index"; u2 "descriptor_index"];
-  cp "CONSTANT_MethodHandle" 15 [u1 "reference_kind"; u2 "reference_index"];
-  cp "CONSTANT_MethodType" 16 [u2 "descriptor_index"];
-  cp "CONSTANT_Dynamic" 17 [u2 "bootstrap_method_attr_index"; u2 "name_and_type_index"];
-  cp "CONSTANT_InvokeDynamic" 18 [u2 "bootstrap_method_attr_index"; u2 "name_and_type_index"];
-  cp "CONSTANT_Module" 19 [u2 "name_index"];
-  cp "CONSTANT_Package" 20 [u2 "name_index"] ] true.
+  cp "Class" 7 [u2 "name_index"];                                                  (* 4.4.1 *)
+  cp "Fieldref" 9 [u2 "class_index"; u2 "name_and_type_index"];                    (* 4.4.2 *)
+  cp "Methodref" 10 [u2 "class_index"; u2 "name_and_type_index"];
+  cp "InterfaceMethodref" 11 [u2 "class_index"; u2 "name_and_type_index"];
+  cp "String" 8 [u2 "string_index"];                                               (* 4.4.3 *)
+  cp "Integer" 3 [u4 "bytes"];                                                     (* 4.4.4 *)
+  cp "Float" 4 [u4 "bytes"];
+  cp8 "Long" 5 [u4 "high_bytes"; u4 "low_bytes"];                                  (* 4.4.5 *)
+  cp8 "Double" 6 [u4 "high_bytes"; u4 "low_bytes"];
+  cp "NameAndType" 12 [u2 "name_index"; u2 "descriptor_index"];                    (* 4.4.6 *)
+  cp "Utf8" 1 [tab2 "bytes" U1];                                                   (* 4.4.7 *)
+  cp "MethodHandle" 15 [u1 "reference_kind"; u2 "reference_index"];                (* 4.4.8 *)
+  cp "MethodType" 16 [u2 "descriptor_index"];                                      (* 4.4.9 *)
+  cp "Dynamic" 17 [u2 "bootstrap_method_attr_index"; u2 "name_and_type_index"];    (* 4.4.10 *)
+  cp "InvokeDynamic" 18 [u2 "bootstrap_method_attr_index"; u2 "name_and_type_index"];
+  cp "Module" 19 [u2 "name_index"];                                                (* 4.4.11 *)
+  cp "Package" 20 [u2 "name_index"] ] true.                                        (* 4.4.12 *)
 
 (* 4.5, 4.6 *)
 Definition j_member : decl := DStruct [
   u2 "access_flags"; u2 "name_index"; u2 "descriptor_index"; tab2 "attributes" (Named "AttributeInfo") ].
 
-(* 4.7 attribute_info { u2 attribute_name_index; u4 attribute_length; u1 info[attribute_length]; } *)
-Definition attr (name : string) (fs : list field) : variant :=
+(* 4.7 attribute_info { u2 attribute_name_index; u4 attribute_length; u1 info[attribute_length]; }
+   The alternative is selected by the name the pool holds at attribute_name_index; the index itself is
+   kept as an item that occupies no further byte.  attribute_length "indicates the length of the
+   attribute, excluding the initial six bytes" ([computed]); where the JVMS prescribes a number ("The
+   value of the attribute_length item must be two/zero/four") it is that literal ([attr_fixed]). *)
+Definition attrv (name : string) (items : list field) : variant :=
   Variant name (CE 16 (EVar "attribute_name_index")) (PBind "attribute_name_index")
     (GPoolUtf8 (CE 16 (EVar "attribute_name_index")) (bytes_of name))
-    (computed "attribute_length" W32 :: fs) false.
+    (derived "attribute_name_index" W16 (EVar "attribute_name_index") :: items) false.
+Definition attr (name : string) (fs : list field) : variant := attrv name (computed "attribute_length" W32 :: fs).
+Definition attr_fixed (name : string) (len : N) (fs : list field) : variant :=
+  attrv name (FConst "attribute_length" W32 (CE 32 (ELit len)) :: fs).
 Definition j_AttributeInfo : decl := DEnum "attribute_name_index" W16 [
-  attr "ConstantValue" [u2 "constantvalue_index"];                                                     (* 4.7.2 *)
+  attr_fixed "ConstantValue" 2 [u2 "constantvalue_index"];                                             (* 4.7.2 *)
   attr "Code" [u2 "max_stack"; u2 "max_locals"; tab4 "code" U1;                                        (* 4.7.3 *)
                tab2 "exception_table" (Named "ExceptionTableEntry"); tab2 "attributes" (Named "AttributeInfo")];
   attr "StackMapTable" [tab2 "entries" (Named "StackMapFrame")];                                       (* 4.7.4 *)
   attr "Exceptions" [tab2 "exception_index_table" U2];                                                 (* 4.7.5 *)
   attr "InnerClasses" [tab2 "classes" (Named "InnerClassesEntry")];                                    (* 4.7.6 *)
-  attr "EnclosingMethod" [u2 "class_index"; u2 "method_index"];                                        (* 4.7.7 *)
-  attr "Synthetic" [];                                                                                 (* 4.7.8 *)
-  attr "Signature" [u2 "signature_index"];                                                             (* 4.7.9 *)
-  attr "SourceFile" [u2 "sourcefile_index"];                                                           (* 4.7.10 *)
+  attr_fixed "EnclosingMethod" 4 [u2 "class_index"; u2 "method_index"];                                (* 4.7.7 *)
+  attr_fixed "Synthetic" 0 [];                                                                         (* 4.7.8 *)
+  attr_fixed "Signature" 2 [u2 "signature_index"];                                                     (* 4.7.9 *)
+  attr_fixed "SourceFile" 2 [u2 "sourcefile_index"];                                                   (* 4.7.10 *)
   (* 4.7.11: u1 debug_extension[attribute_length] — the length item is the count of the table *)
-  Variant "SourceDebugExtension" (CE 16 (EVar "attribute_name_index")) (PBind "attribute_name_index")
-    (GPoolUtf8 (CE 16 (EVar "attribute_name_index")) (bytes_of "SourceDebugExtension")) [tab4 "debug_extension" U1] false;
+  attrv "SourceDebugExtension" [tab4 "debug_extension" U1];
   attr "LineNumberTable" [tab2 "line_number_table" (Named "LineNumberTableEntry")];                    (* 4.7.12 *)
   attr "LocalVariableTable" [tab2 "local_variable_table" (Named "LocalVariableTableEntry")];           (* 4.7.13 *)
   attr "LocalVariableTypeTable" [tab2 "local_variable_type_table" (Named "LocalVariableTypeTableEntry")]; (* 4.7.14 *)
-  attr "Deprecated" [];                                                                                (* 4.7.15 *)
+  attr_fixed "Deprecated" 0 [];                                                                        (* 4.7.15 *)
   attr "RuntimeVisibleAnnotations" [tab2 "annotations" (Named "Annotation")];                          (* 4.7.16 *)
   attr "RuntimeInvisibleAnnotations" [tab2 "annotations" (Named "Annotation")];                        (* 4.7.17 *)
   attr "RuntimeVisibleParameterAnnotations" [tab1 "parameter_annotations" (Named "ParameterAnnotationEntry")];   (* 4.7.18: u1 num_parameters *)
@@ -223,13 +241,14 @@ Definition j_AttributeInfo : decl := DEnum "attribute_name_index" W16 [
                  tab2 "requires" (Named "ModuleRequiresEntry"); tab2 "exports" (Named "ModuleExportsEntry");
                  tab2 "opens" (Named "ModuleOpensEntry"); tab2 "uses_index" U2; tab2 "provides" (Named "ModuleProvidesEntry")];
   attr "ModulePackages" [tab2 "package_index" U2];                                                     (* 4.7.26 *)
-  attr "ModuleMainClass" [u2 "main_class_index"];                                                      (* 4.7.27 *)
-  attr "NestHost" [u2 "host_class_index"];                                                             (* 4.7.28 *)
+  attr_fixed "ModuleMainClass" 2 [u2 "main_class_index"];                                              (* 4.7.27 *)
+  attr_fixed "NestHost" 2 [u2 "host_class_index"];                                                     (* 4.7.28 *)
   attr "NestMembers" [tab2 "classes" U2];                                                              (* 4.7.29 *)
   attr "Record" [tab2 "components" (Named "RecordComponentInfo")];                                     (* 4.7.30 *)
   attr "PermittedSubclasses" [tab2 "classes" U2];                                                      (* 4.7.31 *)
   (* any other attribute: u1 info[attribute_length] *)
-  Variant "attribute_info" (CE 16 (EVar "attribute_name_index")) (PBind "attribute_name_index") GNone [tab4 "info" U1] false
+  Variant "attribute_info" (CE 16 (EVar "attribute_name_index")) (PBind "attribute_name_index") GNone
+    [derived "attribute_name_index" W16 (EVar "attribute_name_index"); tab4 "info" U1] false
   ] false.
 
 (* 4.7.3 exception_table entry *)
@@ -242,13 +261,19 @@ Definition j_VerificationTypeInfo : decl := DEnum "tag" W8 [
   vt "Double_variable_info" 3 []; vt "Long_variable_info" 4 []; vt "Null_variable_info" 5 [];
   vt "UninitializedThis_variable_info" 6 []; vt "Object_variable_info" 7 [u2 "cpool_index"];
   vt "Uninitialized_variable_info" 8 [u2 "offset"] ] true.
+(* u1 frame_type is the tag; it is kept as an item that occupies no further byte, and so are the
+   quantities the JVMS derives from it *)
 Definition fr (name : id) (lo hi : N) (fs : list field) : variant :=
-  Variant name (CE 8 (EVar "frame_type")) (PRange (Some "frame_type") lo hi) GNone fs false.
+  Variant name (CE 8 (EVar "frame_type")) (PRange (Some "frame_type") lo hi) GNone
+    (derived "frame_type" W8 (EVar "frame_type") :: fs) false.
 Definition j_StackMapFrame : decl := DEnum "frame_type" W8 [
-  fr "same_frame" 0 63 [];
-  fr "same_locals_1_stack_item_frame" 64 127 [one "stack" "VerificationTypeInfo"];
+  (* "the offset_delta value for the frame is the value of the tag item, frame_type" *)
+  fr "same_frame" 0 63 [derived "offset_delta" W8 (EVar "frame_type")];
+  (* "the offset_delta value for the frame is given by the formula frame_type - 64" *)
+  fr "same_locals_1_stack_item_frame" 64 127 [derived "offset_delta" W8 (ESub (EVar "frame_type") (ELit 64)); one "stack" "VerificationTypeInfo"];
   fr "same_locals_1_stack_item_frame_extended" 247 247 [u2 "offset_delta"; one "stack" "VerificationTypeInfo"];
-  fr "chop_frame" 248 250 [u2 "offset_delta"];
+  (* "the last k local variables are absent ... k is given by the formula 251 - frame_type" *)
+  fr "chop_frame" 248 250 [derived "k" W8 (ESub (ELit 251) (EVar "frame_type")); u2 "offset_delta"];
   fr "same_frame_extended" 251 251 [u2 "offset_delta"];
   (* verification_type_info locals[frame_type - 251] *)
   fr "append_frame" 252 254 [u2 "offset_delta";
@@ -317,6 +342,67 @@ Theorem layout_is_jvms : forall n d, In (n, d) raw_env ->
 Proof.
   intros n d Hin. pose proof layout_table as H. rewrite forallb_forall in H. specialize (H _ Hin).
   unfold decl_is_jvms in H. cbn [fst snd] in H. destruct (lookup jvms_env n) as [j|]; [|discriminate].
+  exists j. auto.
+Qed.
+
+(* ------------------------------------------------------------------ names *)
+(* The layout erases all names.  What the names of the generated table MEAN is pinned here: the items
+   of every generated structure carry, in order, the JVMS item names, and every alternative of a
+   generated union is the JVMS structure of that meaning (same selecting tag / attribute name, same
+   items) — through the dictionary below, which lists the places where raw_class_file's spelling is
+   not the one used in the table above.  (Exchanging two items of the same width, or the tags of two
+   alternatives of the same shape, leaves every byte-level theorem true; it changes what a user of the
+   crate's API writes.) *)
+Local Open Scope string_scope.
+Definition item_alias : list (id * id) := [("boostrap_arguments", "bootstrap_arguments")].
+Definition variant_alias : list (id * list (id * id)) := [
+  ("VerificationTypeInfo", [("Top", "Top_variable_info"); ("Integer", "Integer_variable_info"); ("Float", "Float_variable_info");
+     ("Null", "Null_variable_info"); ("UnintializedThis", "UninitializedThis_variable_info"); ("Object", "Object_variable_info");
+     ("Unintialized", "Uninitialized_variable_info"); ("Long", "Long_variable_info"); ("Double", "Double_variable_info")]);
+  ("StackMapFrame", [("SameFrame", "same_frame"); ("SameLocals1StackItemFrame", "same_locals_1_stack_item_frame");
+     ("SameLocals1StackItemFrameExtended", "same_locals_1_stack_item_frame_extended"); ("ChopFrame", "chop_frame");
+     ("SameFrameExtended", "same_frame_extended"); ("AppendFrame", "append_frame"); ("FullFrame", "full_frame")]);
+  ("ElementValue", [("Byte", "B"); ("Char", "C"); ("Double", "D"); ("Float", "F"); ("Integer", "I"); ("Long", "J"); ("Short", "S");
+     ("Boolean", "Z"); ("String", "s"); ("Enum", "e"); ("Class", "c"); ("Annotation", "@"); ("Array", "[")]);
+  ("AttributeInfo", [("Other", "attribute_info")]) ].
+Local Close Scope string_scope.
+Definition item_name (x : id) : id := match lookup item_alias x with Some j => j | None => x end.
+Definition variant_name (tn vn : id) : id :=
+  match lookup variant_alias tn with
+  | Some l => match lookup l vn with Some j => j | None => vn end
+  | None => vn
+  end.
+(* names of the items that occupy bytes, in order *)
+Fixpoint item_names (al : id -> id) (fs : list field) : list id :=
+  match fs with
+  | [] => []
+  | FConst x _ _ :: r => al x :: item_names al r
+  | FMut _ _ (Some _) _ :: r => item_names al r
+  | FMut x _ None _ :: r => al x :: item_names al r
+  end.
+Definition lvariant_of (va : variant) : lvariant := (layout_tag (v_pat va) (v_guard va), v_wide va, layout_fields (v_fields va)).
+Definition names_match (tn : id) (g j : decl) : bool :=
+  match g, j with
+  | DStruct a, DStruct b => leqb id_eqb (item_names item_name a) (item_names (fun x => x) b)
+  | DEnum _ _ va _, DEnum _ _ vb _ =>
+      forallb (fun v => existsb (fun w => id_eqb (variant_name tn (v_name v)) (v_name w)
+                                          && lvariant_eqb (lvariant_of v) (lvariant_of w)
+                                          && leqb id_eqb (item_names item_name (v_fields v)) (item_names (fun x => x) (v_fields w))) vb) va
+  | _, _ => false
+  end.
+Definition decl_names_jvms (nd : id * decl) : bool :=
+  match lookup jvms_env (fst nd) with
+  | Some j => names_match (fst nd) (snd nd) j
+  | None => false
+  end.
+Lemma names_table : forallb decl_names_jvms raw_env = true.
+Proof. vm_compute. reflexivity. Qed.
+
+Theorem names_are_jvms : forall n d, In (n, d) raw_env ->
+  exists j, lookup jvms_env n = Some j /\ names_match n d j = true.
+Proof.
+  intros n d Hin. pose proof names_table as H. rewrite forallb_forall in H. specialize (H _ Hin).
+  unfold decl_names_jvms in H. cbn [fst snd] in H. destruct (lookup jvms_env n) as [j|]; [|discriminate].
   exists j. auto.
 Qed.
 
